@@ -466,6 +466,7 @@ sp_cgemv(char *trans, complex alpha, SuperMatrix *A, complex *x,
 
     /* Local variables */
     NCformat *Astore;
+    int_t    *colbeg, *colend; /* column j is [colbeg[j], colend[j]) */
     complex   *Aval;
     int info;
     complex temp, temp1;
@@ -478,6 +479,13 @@ sp_cgemv(char *trans, complex alpha, SuperMatrix *A, complex *x,
     notran = lsame_(trans, "N");
     conjtr = lsame_(trans, "C");
     Astore = A->Store;
+    if ( A->Stype == SLU_NCP ) { /* column-permuted view: own begin/end arrays */
+	colbeg = ((NCPformat*) A->Store)->colbeg;
+	colend = ((NCPformat*) A->Store)->colend;
+    } else {
+	colbeg = Astore->colptr;
+	colend = Astore->colptr + 1;
+    }
     Aval = Astore->nzval;
     
     /* Test the input parameters */
@@ -546,7 +554,7 @@ sp_cgemv(char *trans, complex alpha, SuperMatrix *A, complex *x,
 	    for (j = 0; j < A->ncol; ++j) {
 		if ( !c_eq(&x[jx], &comp_zero) ) {
 		    cc_mult(&temp, &alpha, &x[jx]);
-		    for (i = Astore->colptr[j]; i < Astore->colptr[j+1]; ++i) {
+		    for (i = colbeg[j]; i < colend[j]; ++i) {
 			irow = Astore->rowind[i];
 			cc_mult(&temp1, &temp,  &Aval[i]);
 			c_add(&y[irow], &y[irow], &temp1);
@@ -563,7 +571,7 @@ sp_cgemv(char *trans, complex alpha, SuperMatrix *A, complex *x,
 	if (incx == 1) {
 	    for (j = 0; j < A->ncol; ++j) {
 		temp = comp_zero;
-		for (i = Astore->colptr[j]; i < Astore->colptr[j+1]; ++i) {
+		for (i = colbeg[j]; i < colend[j]; ++i) {
 		    irow = Astore->rowind[i];
 		    if ( conjtr ) { cc_conj(&temp1, &Aval[i]); cc_mult(&temp1, &temp1, &x[irow]); }
 		    else cc_mult(&temp1, &Aval[i], &x[irow]);
